@@ -151,6 +151,9 @@ class _Normalizer:
             self._each_function(m, self._iteration_idioms)
             self._each_function(m, self._yield_from)
             self._each_function(m, self._generator_form)
+            # (a function that returned a generator expression over a helper generator is a loop now: fuse again)
+            self._each_function(m, self._fuse_in_function)
+            self._each_function(m, self._iteration_idioms)
             self._each_function(m, self._augment_function)
             self._each_function(m, self._prune_constant_tests)
             self._each_function(m, self._desugar_function)
@@ -2499,6 +2502,51 @@ class _Normalizer:
             me.stats['iteration_idioms'] = me.stats.get('iteration_idioms', 0) + 1
             return ast.Assign(targets=[ast.Name(id=x, ctx=ast.Store())], value=comp)
 
+        # r = iter(stream.read-like callable, SENTINEL) used only as ``x = next(r, D)``: every such statement reads once more and
+        # maps the sentinel to D (a stream at its end keeps returning the sentinel, so asking again after the end changes nothing)
+        for n in list(ast.walk(fnode)):
+            if isinstance(n, ast.Assign) and len(n.targets) == 1 and isinstance(n.targets[0], ast.Name) and isinstance(n.value, ast.Call) \
+                    and isinstance(n.value.func, ast.Name) and n.value.func.id == 'iter' and 'iter' not in local and len(n.value.args) == 2 \
+                    and not n.value.keywords and isinstance(n.value.args[1], ast.Constant):
+                r = n.targets[0].id
+                fn_, sent = n.value.args
+                call = None
+                if isinstance(fn_, ast.Call) and _is_partial(fn_):
+                    call = ast.Call(func=fn_.args[0], args=list(fn_.args[1:]), keywords=[])
+                elif _is_simple(fn_) and isinstance(fn_, ast.Attribute):
+                    call = ast.Call(func=fn_, args=[], keywords=[])
+                if call is None or not (isinstance(call.func, ast.Attribute) and call.func.attr in ('read', 'recv', 'readline', 'read1')):
+                    continue
+                if sum(1 for y in ast.walk(fnode) if isinstance(y, ast.Name) and y.id == r and isinstance(y.ctx, ast.Store)) != 1:
+                    continue
+                uses = [y for y in ast.walk(fnode) if isinstance(y, ast.Name) and y.id == r and isinstance(y.ctx, ast.Load)]
+                nexts = [y for y in ast.walk(fnode) if isinstance(y, ast.Assign) and len(y.targets) == 1 and isinstance(y.targets[0], ast.Name)
+                         and isinstance(y.value, ast.Call) and isinstance(y.value.func, ast.Name) and y.value.func.id == 'next'
+                         and len(y.value.args) == 2 and not y.value.keywords and isinstance(y.value.args[0], ast.Name) and y.value.args[0].id == r
+                         and isinstance(y.value.args[1], ast.Constant)]
+                if not uses or len(nexts) != len(uses):
+                    continue
+                for blk in _blocks(fnode):
+                    i = 0
+                    while i < len(blk):
+                        y = blk[i]
+                        if y is n:
+                            del blk[i]
+                            continue
+                        if any(y is z for z in nexts):
+                            x = y.targets[0].id
+                            read = ast.Assign(targets=[ast.Name(id=x, ctx=ast.Store())], value=copy.deepcopy(call))
+                            fix = ast.If(test=ast.Compare(left=ast.Name(id=x, ctx=ast.Load()), ops=[ast.Eq()], comparators=[copy.deepcopy(sent)]),
+                                         body=[ast.Assign(targets=[ast.Name(id=x, ctx=ast.Store())], value=y.value.args[1])], orelse=[])
+                            for z in (read, fix):
+                                ast.copy_location(z, y)
+                                ast.fix_missing_locations(z)
+                            blk[i:i + 1] = [read, fix]
+                            i += 2
+                            continue
+                        i += 1
+                me.stats['iteration_idioms'] = me.stats.get('iteration_idioms', 0) + 1
+
         def walk_body(body):
             out = []
             for st in body:
@@ -3133,7 +3181,7 @@ class _Normalizer:
                 target = getattr(st, hdr) if hdr else st
                 if target is None:
                     break
-                hit = first_helper_call(target, pure_only=hdr is not None)
+                hit = first_helper_call(target, pure_only=hdr is not None and not isinstance(st, ast.For))
                 if hit is None:
                     break
                 call, (fi, recv) = hit
@@ -3142,7 +3190,10 @@ class _Normalizer:
                     break
                 pre, ret = exp
                 if hdr is not None and pre:
-                    if not (isinstance(st, ast.If) and _evaluated_first(st.test, call)):
+                    # (the source of a ``for`` is evaluated once, before the loop: statements moved in front of it run when
+                    # the call would have run)
+                    if not ((isinstance(st, ast.If) and _evaluated_first(st.test, call)) or
+                            (isinstance(st, ast.For) and _evaluated_first(st.iter, call))):
                         break
                 me.stats['inlined_calls'] += 1
                 me.inlined.append((caller_key, fi.key, id(fnode)))
@@ -3311,6 +3362,10 @@ def fused_view(repo, fi, callee_keys):
     n.force_helpers = set(callee_keys)
     node = copy.deepcopy(fi.node)
     n._fuse_in_function(node, fi.cls, _bound_names(node))
+    # a producer that is not a generator but returns an iterable it put together (``return zip(pieces, flags)``): its
+    # statements in front of the consuming loop, its result as the loop's source
+    n._cur_fnode = node
+    n._inline_in_function(node, fi.cls, _bound_names(node))
     ast.fix_missing_locations(node)
     out = FuncInfo(fi.module, fi.cls, fi.name, node, fi.kind, fi.parent)
     return out, n.stats.get('fused_generators', 0)
